@@ -532,6 +532,86 @@ fn one(sh: &mut Shard, c: Config, steps: Vec<Step>) {
     sh.end();
 }
 
+/// Reconfiguration (round e): the task set of a running resource is replaced through the bytecode metadata path
+/// (apply_bytecode_bytes, what a hot reload does).  Afterwards the task model applies to the NEW task set: a program that
+/// has no task any more runs in every cycle, a program that now has a task runs at most once per cycle and when due.
+fn reconfigure(sh: &mut Shard) {
+    let progs = "PROGRAM PA\nVAR_EXTERNAL ca : DINT; END_VAR\nca := ca + DINT#1;\nEND_PROGRAM\nPROGRAM PB\nVAR_EXTERNAL cb : DINT; END_VAR\ncb := cb + DINT#1;\nEND_PROGRAM\n";
+    let cfg = |body: &str| format!("{progs}CONFIGURATION C\nVAR_GLOBAL ca : DINT; cb : DINT; END_VAR\n{body}END_CONFIGURATION\n");
+    let variants: Vec<(&str, String)> = vec![
+        ("both-on-task", cfg("TASK T (INTERVAL := T#1ms, PRIORITY := 1);\nPROGRAM A WITH T : PA;\nPROGRAM B WITH T : PB;\n")),
+        ("no-task", cfg("PROGRAM A : PA;\nPROGRAM B : PB;\n")),
+        ("a-on-task", cfg("TASK T (INTERVAL := T#1ms, PRIORITY := 1);\nPROGRAM A WITH T : PA;\nPROGRAM B : PB;\n")),
+        ("b-on-slow-task", cfg("TASK S (INTERVAL := T#100ms, PRIORITY := 1);\nPROGRAM A : PA;\nPROGRAM B WITH S : PB;\n")),
+    ];
+    let get = |h: &TestHarness, n: &str| match h.get_output(n) {
+        Some(Value::DInt(x)) => x as i64,
+        _ => -1,
+    };
+    for (i, (from_name, from_src)) in variants.iter().enumerate() {
+        for (j, (to_name, to_src)) in variants.iter().enumerate() {
+            if i == j {
+                continue;
+            }
+            let case = json!({"reconfigure": {"from": from_name, "to": to_name}});
+            if !sh.begin("reconfigure", &case) {
+                continue;
+            }
+            let res: Result<(), (String, String)> = (|| {
+                let mut h = TestHarness::from_source(from_src).map_err(|e| ("compile".to_string(), e.to_string()))?;
+                for _ in 0..3 {
+                    h.advance_time(Duration::from_nanos(MS));
+                    if let Some(e) = h.cycle().errors.first() {
+                        return Err(("harness".into(), format!("cycle before the reconfiguration: {e:?}")));
+                    }
+                }
+                let bytes = trust_runtime::harness::bytecode_bytes_from_source(to_src).map_err(|e| ("compile".to_string(), e.to_string()))?;
+                h.runtime_mut().apply_bytecode_bytes(&bytes, None).map_err(|e| ("harness".to_string(), format!("apply_bytecode_bytes: {e:?}")))?;
+                let (a0, b0) = (get(&h, "ca"), get(&h, "cb"));
+                let n = 5i64;
+                for k in 0..n {
+                    h.advance_time(Duration::from_nanos(MS));
+                    if let Some(e) = h.cycle().errors.first() {
+                        return Err(("reconfigure|cycle-error".into(), format!("cycle {k} after {from_name} -> {to_name}: {e:?}")));
+                    }
+                }
+                let (da, db) = (get(&h, "ca") - a0, get(&h, "cb") - b0);
+                // what the new task set demands over 5 cycles of 1 ms
+                let want = |on_task: Option<i64>| -> (i64, i64) {
+                    match on_task {
+                        None => (n, n),                  // no task: every cycle
+                        Some(1) => (n - 2, n),           // 1 ms task: due (almost) every cycle, never twice in one
+                        Some(_) => (0, 1),               // 100 ms task: at most once in 5 ms
+                    }
+                };
+                let (ta, tb) = match *to_name {
+                    "both-on-task" => (Some(1), Some(1)),
+                    "no-task" => (None, None),
+                    "a-on-task" => (Some(1), None),
+                    _ => (None, Some(100)),
+                };
+                for (name, d, t) in [("A", da, ta), ("B", db, tb)] {
+                    let (lo, hi) = want(t);
+                    if d < lo || d > hi {
+                        let what = if t.is_none() { "background-program-not-executed-every-cycle" } else { "task-program-executions" };
+                        return Err((format!("reconfigure|{what}"), format!("{from_name} -> {to_name}: program instance {name} executed {d} times in {n} cycles of 1 ms, the new task set demands {lo}..{hi}")));
+                    }
+                }
+                Ok(())
+            })();
+            match res {
+                Ok(()) => {
+                    sh.count("reconfigurations_checked", 1);
+                    sh.nontrivial(&("reconfigure", *from_name, *to_name));
+                }
+                Err((sig, d)) if sig == "compile" || sig == "harness" => sh.inconclusive(format!("reconfigure {from_name}->{to_name}: {sig}: {d}")),
+                Err((sig, d)) => sh.violation(sig, d, case.clone()),
+            }
+            sh.end();
+        }
+    }
+}
+
 pub fn run(sh: &mut Shard) {
     if let Some(path) = sh.args.replay.clone() {
         let v: J = serde_json::from_str(&std::fs::read_to_string(path).expect("replay")).expect("json");
@@ -542,6 +622,9 @@ pub fn run(sh: &mut Shard) {
         return;
     }
     let rng = Rng::new(sh.args.shard_seed());
+    if sh.args.shard == 0 {
+        reconfigure(sh);
+    }
     let mut i = 0u64;
     while sh.time_left() {
         i += 1;
